@@ -19,6 +19,9 @@ const Preface = "PRI * HTTP/2.0\r\n\r\nSM\r\n\r\n"
 type Field struct {
 	N string `json:"n"`
 	V string `json:"v"`
+	// S: the field is sent as a never-indexed literal (HPACK "sensitive"): it leaves the
+	// dynamic tables of every encoder and decoder on its way untouched.
+	S bool `json:"s,omitempty"`
 }
 
 // Prio is a priority specification (wire weight, 0..255).
@@ -536,7 +539,7 @@ func (e *Endpoint) completeBlock(pb *pendingBlock) {
 		ev.DecodeErr = err.Error()
 	}
 	for _, h := range hf {
-		ev.Fields = append(ev.Fields, Field{N: h.Name, V: h.Value})
+		ev.Fields = append(ev.Fields, Field{N: h.Name, V: h.Value, S: h.Sensitive})
 	}
 	e.addEvent(pb.stream, ev)
 }
@@ -632,7 +635,7 @@ func (e *Endpoint) SetEncoderTableSize(v uint32) {
 func (e *Endpoint) encode(fields []Field) []byte {
 	e.ebuf.Reset()
 	for _, f := range fields {
-		e.enc.WriteField(hpack.HeaderField{Name: f.N, Value: f.V})
+		e.enc.WriteField(hpack.HeaderField{Name: f.N, Value: f.V, Sensitive: f.S})
 	}
 	return append([]byte(nil), e.ebuf.Bytes()...)
 }
